@@ -26,8 +26,21 @@ def relclose(a, b, tol):
 
 
 def groove_twins(chk, ks):
-    for name, kw in GC.CATALOGUE:
-        g1 = GC.build(name, kw, 1.0)
+    # every groove of the catalogue; the padding of the roll face in its three spellings: default, relative (`rel_pad`, a ratio) and absolute (`pad`, a length)
+    cat = list(GC.CATALOGUE)
+    for i, (name, kw) in enumerate(GC.CATALOGUE):
+        if i % 4 == 0:
+            cat.append((name, dict(kw, rel_pad=0.35)))
+        elif i % 4 == 1:
+            uw = GC.build(name, kw, 1.0).usable_width
+            cat.append((name, dict(kw, pad=0.2 * uw)))
+    for name, kw in cat:
+        try:
+            g1 = GC.build(name, kw, 1.0)
+        except TypeError:
+            if 'pad' in kw or 'rel_pad' in kw:
+                continue            # a class that does not take this spelling of the padding
+            raise
         scale1 = max(abs(v) for a, v in kw.items() if a in GC.LENGTH_KEYS)
         for k in ks:
             try:
